@@ -139,8 +139,18 @@ def run(tier):
              "shape": "?", "scalars_equal": False, "sequence": True}
         try:
             with RecordWriter(url) as w:
+                accepted = []
                 for r in recs:
-                    w.write(r)
+                    if isinstance(r, tuple):          # ("refused", record): a record json cannot serialise; the caller carries on
+                        try:
+                            w.write(r[1])
+                            accepted.append(r[1])
+                        except Exception:
+                            pass
+                    else:
+                        w.write(r)
+                        accepted.append(r)
+                recs = accepted
             text = open(os.path.join(tmp, "o.json"), encoding="utf-8").read()
             docs = [d for d in docs_of(text) if d.get("_type", "record") == "record"]
             back = list(RecordReader(os.path.join(tmp, "o.json")))
@@ -169,6 +179,16 @@ def run(tier):
         for descriptors in (True, False):
             cases.append(seq_case(recs, descriptors, "seq:none-then-values", T))
             ctx.case(("seq", T, descriptors))
+    # a record json.dumps cannot serialise (an integer of 5000 digits) as the FIRST record of its type, and in the middle:
+    # the records accepted around it must still read back
+    Dv = gen.desc_for("varint", extra=(("string", "tail"),))
+    Dv2 = RecordDescriptor("js/second", [("varint", "f"), ("string", "tail")])
+    bad = lambda DD: ("refused", DD(10**5000, "t", _generated=gen.GEN))
+    good = lambda DD, i: DD(i, "t", _generated=gen.GEN)
+    for recs in ([bad(Dv), good(Dv, 1), good(Dv, 2)], [good(Dv, 1), bad(Dv), good(Dv, 2)], [good(Dv, 1), bad(Dv2), good(Dv2, 2), good(Dv, 3), good(Dv2, 4)]):
+        for descriptors in (True, False):
+            cases.append(seq_case(list(recs), descriptors, "seq:refused-record-then-good-ones", "varint"))
+            ctx.case(("seq-refused", len(recs), isinstance(recs[0], tuple), descriptors))
     A = RecordDescriptor("js/same", [("string", "f"), ("string", "tail")])
     B = RecordDescriptor("js/same", [("string", "f"), ("string", "tail"), ("varint", "extra")])
     Cc = RecordDescriptor("js/same", [("varint", "f"), ("string", "tail")])
